@@ -81,7 +81,7 @@ Lemma wrap32_land_cap x : Z.land (wrap32 x) (cap - 1) = x mod cap.
 Proof. rewrite land_cap. subst cap. apply wrap32_mod_pow. lia. Qed.
 
 Definition ent_wf (e : ent) : Prop :=
-  0 <= e_pos e /\ e_pos e mod 8 = 0 /\ 8 <= e_len e <= cap /\
+  0 <= e_pos e /\ e_pos e mod 8 = 0 /\ 8 <= e_len e <= cap - 8 /\
   e_pos e mod cap + align (e_len e) 8 <= cap /\
   8 + Z.of_nat (length (e_bs e)) <= e_len e /\ in_i32 (e_ty e) = true /\
   (is_pad e = false -> e_len e = 8 + Z.of_nat (length (e_bs e))) /\
@@ -108,6 +108,9 @@ Proof.
   intros (P0 & P8 & L & C & _). unfold e_end. pose proof (align8_bounds (e_len e)).
   pose proof (Z.mod_pos_bound (e_pos e) cap ltac:(pose proof cap_bounds; lia)). lia.
 Qed.
+
+Lemma e_end_lt e : ent_wf e -> e_end e < e_pos e + cap.
+Proof. clear Hcap Hk. intros (P0 & P8 & L & _). unfold e_end. pose proof (align8_bounds (e_len e)). lia. Qed.
 
 Lemma chain_bounds l : forall a b, Forall ent_wf l -> chain a l b ->
   a <= b /\ Forall (fun e => a <= e_pos e /\ e_end e <= b) l.
